@@ -50,6 +50,11 @@ CHECKS = {
          "Totality: for 8 bases b in (1,2] every fraction k/m with m<=2048 (quick) / 12000 (thorough), bands next to 0 and 1 for m up to 2^32 and 12288 neighbouring floats are passed to the real get_jaccard_bounds (1.7e7 calls quick): it must return with lo<=hi+1e-9. Bracket: all 11^3 cardinality triples x 7 bases admissible under the clip precondition: collision probability from the closed-form model, real bounds must contain J within 1e-4. Collisions: 108 configurations (3 bases x m in {1,64,4096} x 8-12 set shapes incl. nested/disjoint/identical/1-vs-1e4 (1e6 thorough), u16/u32, plus partially clipping parameter sets); every labelling t of a seeded identifier block is sketched with the real sketcher and the mean collision fraction must lie within 6 standard errors of the model, confirmed on a 4x larger disjoint block before a violation is reported.",
          "collision part decides the enumerated block only (finite-population statement, resolution ~3/sqrt(register pairs)); the collision model is the stated reference",
          "DESIGN.md §4 C07"),
+ "C11": ("model_checking",
+         "exhaustive enumeration of all sequences up to a length (all permutations of every multiset, all short call histories) against a race-table reference model",
+         "Every sequence of length l..6 (quick) / 8 (thorough) over a 4-5 letter alphabet, repeats included, for l in {1,2,3} and m in {1,2,4,16} (+3,8,33) is hashed by the real ProbOrdMinHash2; hook H4 exposes the selected (index,value) pairs per position. Grouped by multiset (2436 groups quick, 2196 with several permutations): the selected (element,occurrence) set per position must be identical across permutations and equal the l pairs with the smallest race values, the race tables being read from the real code; the signature value must be one injective function of the selected elements in sequence order; l=1 signatures are permutation invariant; a call's result is independent of 1-2 earlier calls on the instance (all choices from a 6-sequence pool). Non-vacuity: thousands of reject-then-accept events (the situation the repaired defect mishandled) are counted.",
+         "instance seed pinned through hook H4 (seed randomness belongs to C12); race values assumed independent of l",
+         "DESIGN.md §4 C11"),
 }
 PENDING_REASON = "check not built yet in this revision (see DESIGN.md §4 for the planned model-checking approach)"
 
